@@ -157,6 +157,8 @@ def model_request(case, samp, coal):
         return f"skygrid F {Hx(case['thetas'])} | {Hx(h)} | {Hx(case['grid'])}"
     if k == "exponential":
         return f"exp F {Hx([case['thetas'][0], case['growth']])} | {Hx(h)}"
+    if k == "linear":
+        return f"linear F {Hx(case['thetas'])} | {Hx(h)} | {Hx(case['grid'])}"
     return None
 
 
@@ -169,8 +171,8 @@ def close(a, b, tol, scale=1.0):
 
 
 # ----------------------------------------------------------------------------- case generation
-MODELLED = ("constant", "skyride", "skygrid", "exponential")
-ALL_KINDS = MODELLED + ("softgrid", "linear", "pwexp")
+MODELLED = ("constant", "skyride", "skygrid", "exponential", "linear")
+ALL_KINDS = MODELLED + ("softgrid", "pwexp")
 
 
 def make_case(rng, kind, n, gen=None, flat=None):
@@ -281,7 +283,7 @@ class Runner:
             return
         m = h2f(rep)
         _, scale = oracle_value(case)
-        tol = TOL_TRANS if case["kind"] == "exponential" else TOL_EXACT
+        tol = TOL_TRANS if case["kind"] in ("exponential", "linear") else TOL_EXACT
         if not close(v, m, tol, scale):
             self.ck.mismatch("model/implementation value",
                              {"case": enc_case(case), "order": order, "model": m, "impl": v})
@@ -451,7 +453,7 @@ class Runner:
             req = model_request(c, c["samp"], c["coal"])
             if req and self.drv:
                 m = self.drv.ask(req)
-                tol = TOL_TRANS if kind == "exponential" else TOL_EXACT
+                tol = TOL_TRANS if kind in ("exponential", "linear") else TOL_EXACT
                 if m == "bad-op" or not close(out[s], h2f(m), tol, scale):
                     self.ck.mismatch("batched row differs from model on the slice",
                                      {"case": enc_case(c), "row": s, "mode": mode, "impl": out[s], "model": m})
